@@ -8,6 +8,7 @@ white space, an underscore or a sign.
 import Wheatley.Model.Parse
 import Wheatley.Lemmas.StartRow
 import Wheatley.Lemmas.RoundTrip
+import Wheatley.Lemmas.Gen
 namespace Wheatley.C18
 open Wheatley.Parse
 
@@ -347,6 +348,56 @@ theorem accepted_call_converts (c : Chars) (seg pn : List Char) (loc : Int)
         subst h2
         exact ⟨valid_implies_convert pn' (by simpa using hvalid), by intro e; subst e; simp at hne⟩
   · rename_i e hne; rw [h] at hne; exact absurd rfl (hne _ _)
+
+/-! ### What is accepted can be rung, for as long as one likes -/
+
+theorem kind_of_cfg (g g' : Gen) (h : g'.cfg = g.cfg) : g'.kind = g.kind := by
+  simp only [Gen.cfg, Prod.mk.injEq] at h; exact h.1
+
+/-- **An accepted notation can actually be rung, indefinitely and through any calls**: a generator built
+from place notation never fails to produce the next row, whatever Bobs, Singles and resets come in
+between (places above the stage, empty call definitions, calls defined nowhere included). -/
+theorem pn_never_fails (c : PNCfg) : ∀ (ops : List GenOp) (g : Gen), g.kind = .pn c →
+    ∀ ev ∈ (g.runOps ops).2, ∃ r calls, ev = GenEv.row r calls := by
+  intro ops
+  induction ops with
+  | nil => intro g _ ev hev; simp [Gen.runOps] at hev
+  | cons op ops ih =>
+    intro g hk ev hev
+    have hk' : (g.apply op).1.kind = .pn c := by
+      rw [kind_of_cfg g _ (Gen.apply_cfg g op)]; exact hk
+    unfold Gen.runOps at hev
+    cases op with
+    | bob => simp only [Gen.apply] at hev hk'; exact ih _ hk' ev hev
+    | single => simp only [Gen.apply] at hev hk'; exact ih _ hk' ev hev
+    | reset => simp only [Gen.apply] at hev hk'; exact ih _ hk' ev hev
+    | next hand =>
+      have hn : ∃ g' r, g.next hand = .ok g' r [] := by
+        unfold Gen.next; rw [hk]; exact ⟨_, _, rfl⟩
+      obtain ⟨g', r, hn⟩ := hn
+      simp only [Gen.apply, hn] at hev hk'
+      simp only [List.mem_cons] at hev
+      rcases hev with rfl | hev
+      · exact ⟨r, [], rfl⟩
+      · exact ih g' hk' ev hev
+
+/-- … in particular the generator of every accepted `--place-notation` value. -/
+theorem accepted_notation_rings (c : Chars) (s pn : List Char) (stage : Nat)
+    (h : placeNotation c s = .ok (stage, pn)) :
+    ∃ g, mkPN stage pn none none 0 none = some g ∧
+      ∀ ops, ∀ ev ∈ (g.runOps ops).2, ∃ r calls, ev = GenEv.row r calls := by
+  have hs := accepted_notation_can_be_rung c s pn stage h
+  obtain ⟨g, hg⟩ := Option.isSome_iff_exists.mp hs
+  refine ⟨g, hg, ?_⟩
+  have hk : ∃ cfg, g.kind = .pn cfg := by
+    unfold mkPN at hg
+    simp only [] at hg
+    repeat' split at hg
+    all_goals first
+      | (simp only [Option.some.injEq] at hg; subst hg; exact ⟨_, rfl⟩)
+      | cases hg
+  obtain ⟨cfg, hk⟩ := hk
+  exact fun ops => pn_never_fails cfg ops g hk
 
 /-! ### The value of an accepted start row -/
 
